@@ -220,7 +220,7 @@ pub fn run(ctx: &Ctx) {
          histories that differ in more than order, or a cross-process case; distinct by digest.",
     );
     let g = Gen { max_tiles: ctx.tier.pick(200, 600), allow_big: false, allow_adv: false, full_floats: !ctx.excluded("C16/rewrite-differs/full-float") };
-    run_proptest(ctx, "history-pairs", PtCfg::new(ctx.lanes, ctx.tier.pick(1200, 10000)), || strategy(g), check);
+    run_proptest(ctx, "history-pairs", PtCfg::new(ctx.lanes, ctx.tier.pick(1200, 60_000)), || strategy(g), check);
     let big: Vec<Case> = (0..ctx.tier.pick(4, 16))
         .map(|i| Case { l: logical::large(18_000 + 1500 * i, 5000 + i as u64, 1 + (i % 4) as u8), seed2: 99 + i as u32, detours: vec![Detour::Junk(3, 4), Detour::Alias(9, 9), Detour::ReAdd(500)], reopen_at: if i % 2 == 0 { Some(30000) } else { None }, reopen_async: false, asyncw: i % 3 == 2 })
         .collect();
